@@ -119,7 +119,23 @@ func (g *hgen) logon(spec LogonSpec) *rig.InMsg {
 	if hb > g.maxHB {
 		g.maxHB = hb
 	}
-	return &rig.InMsg{Type: rig.TLogon, Seq: g.seq(), Fields: fields, Note: fmt.Sprintf("logon hb=%s method=%s creds=%s", spec.HB, spec.Method, spec.Creds)}
+	m := &rig.InMsg{Type: rig.TLogon, Seq: g.seq(), Fields: fields, Note: fmt.Sprintf("logon hb=%s method=%s creds=%s", spec.HB, spec.Method, spec.Creds)}
+	switch rapid.IntRange(0, 11).Draw(g.t, "logonExtra") {
+	case 0:
+		m.Fields = append(m.Fields, rig.F(rig.TagResetSeqNumFlag, "Y")) // changes nothing about who may log on
+	case 1:
+		// the Logon's repeating group (NoMsgTypes), announced correctly
+		m.Fields = append(m.Fields, rig.F("384", "2"), rig.F("372", "D"), rig.F("385", "S"), rig.F("372", "8"), rig.F("385", "R"))
+	case 2:
+		// ... or with a count that does not match its entries: not a well-formed Logon
+		m.Fields = append(m.Fields, rig.F("384", rapid.SampledFrom([]string{"1", "0", "3"}).Draw(g.t, "wrongCount")), rig.F("372", "D"), rig.F("385", "S"), rig.F("372", "8"), rig.F("385", "R"))
+		m.Note += " wrong-group-count"
+	case 3:
+		// a numeric header field that is not a number
+		m.PreSeq = append(m.PreSeq, rig.F("369", rapid.SampledFrom([]string{"abc", "1x"}).Draw(g.t, "badHeaderInt")))
+		m.Note += " bad-header-field"
+	}
+	return m
 }
 
 // goodLogon is an acceptable Logon with the given interval (0 = draw one).
@@ -171,6 +187,27 @@ func LogonVerdict(cfg *rig.Cfg, m *rig.InMsg) (verdict string, badTags []string)
 	if _, err := strconv.Atoi(m.Seq); (err != nil || m.NoSeq) {
 		return "unparsable", nil
 	}
+	for _, f := range m.PreSeq {
+		if f.Tag == "369" {
+			if _, err := strconv.Atoi(f.Val); err != nil {
+				return "unparsable", nil
+			}
+		}
+	}
+	for i, f := range m.Fields {
+		if f.Tag == "384" { // NoMsgTypes: the count must equal the number of entries (each opened by 372)
+			n, err := strconv.Atoi(f.Val)
+			entries := 0
+			for _, e := range m.Fields[i+1:] {
+				if e.Tag == "372" {
+					entries++
+				}
+			}
+			if err != nil || n != entries {
+				return "unparsable", nil
+			}
+		}
+	}
 	n := 0
 	if hasHB {
 		var err error
@@ -205,6 +242,9 @@ func (g *hgen) testRequest(id string) *rig.InMsg {
 	if g.t != nil && rapid.IntRange(0, 7).Draw(g.t, "steerChecksum") == 0 {
 		// a valid message whose CheckSum lands on an edge of the three-digit field
 		steerChecksum(m, rapid.SampledFrom([]string{"000", "000", "001", "009", "010", "099", "100", "255"}).Draw(g.t, "checksumEdge"))
+	}
+	if g.t != nil && rapid.IntRange(0, 9).Draw(g.t, "padBodyLength") == 0 {
+		m.PadLen = rapid.IntRange(1, 4).Draw(g.t, "padLen") // 9=00066: the same number with leading zeros
 	}
 	return m
 }
